@@ -5,7 +5,7 @@ import ast
 from typing import Any, Dict, Iterable, List, Optional, Tuple
 
 from ..kit import (
-    Case, Ctx, calls, calls_target, kw, loops, nf_cmp, normal_paths, poly_of, product_worlds, rule,
+    Case, Ctx, caller_ok, calls, calls_target, kw, loops, nf_cmp, normal_paths, poly_of, product_worlds, rule,
     short, stores, table_check_cases,
 )
 from ..paths import Event, Path
@@ -33,6 +33,8 @@ def writer_allowlist(ctx: Ctx, cls: str, attr: str, allowed: Dict[str, str], han
             ctx.holds(f, w.node, f"write of {cls}.{attr} in {q}", expected=allowed[q], found=w.kind)
         elif handler_names and f.name in handler_names and f.cls is not None and p.is_subclass(f.cls.name, "EventABC"):
             ctx.holds(f, w.node, f"write of {cls}.{attr} in {q}", expected="event handler " + f.name, found=w.kind)
+        elif caller_ok(ctx, f, lambda g: g.qualname in allowed or (bool(handler_names) and g.name in handler_names and g.cls is not None and p.is_subclass(g.cls.name, "EventABC"))):
+            ctx.holds(f, w.node, f"write of {cls}.{attr} in helper {q}", expected="private helper called only from allowed writers", found=w.kind)
         else:
             ctx.violated(f, w.node, f"write of {cls}.{attr} in {q}", "writers: " + ", ".join(sorted(allowed)) + (" + handlers " + "/".join(handler_names) if handler_names else ""),
                          f"{q} writes {cls}.{attr} ({w.kind})")
@@ -401,12 +403,12 @@ def r8(ctx: Ctx) -> None:
         sites = ctx.cg.sites_calling(callee)
         ctx.require(len(sites) >= 2, f"fewer than 2 call sites of {callee}")
         for s in sites:
-            ctx.check(s.caller.qualname == HO, s.caller, s.node, f"caller of {callee}", HO, s.caller.qualname)
+            ctx.check(caller_ok(ctx, s.caller, lambda g: g.qualname == HO), s.caller, s.node, f"caller of {callee}", HO, s.caller.qualname)
     # provenance inside the runner
     f = ctx.func(HO)
     ho_sites = ctx.cg.sites_calling(HO)
     for s in ho_sites:
-        ctx.check(s.caller.qualname == "SequentialRunner._update_markets", s.caller, s.node, "caller of _handle_orders", "SequentialRunner._update_markets", s.caller.qualname)
+        ctx.check(caller_ok(ctx, s.caller, lambda g: g.qualname == "SequentialRunner._update_markets"), s.caller, s.node, "caller of _handle_orders", "SequentialRunner._update_markets", s.caller.qualname)
     um = ctx.func("SequentialRunner._update_markets")
     for p in normal_paths(ctx.paths(um.qualname)):
         h = [e for e in calls(p) if calls_target(e, HO)]
